@@ -135,6 +135,31 @@ def _ids(t, acc=None):
     return acc
 
 
+def representation_named():
+    """does a freshly built evaluator keep its state where the step analysis below expects it: a symbolic checksum in
+    `_checksum` and the generated function in the instance attribute `run_experiment`?"""
+    if "named" in _DIGEST:
+        return _DIGEST["named"]
+
+    def entry(it):
+        env = it.import_module(EVAL)
+        cls = env.vars["ExperimentEvaluator"]
+        inst = it.call(cls, [SStr(T_PROBE)], {})
+        return dict(inst.attrs)
+    ok = False
+    try:
+        run = api.run(entry, opts={"float_mode": "real", "prune": True}, setup=setup_stubs)
+        for p in run.paths:
+            if isinstance(p.outcome, Return):
+                a = p.outcome.value
+                ok = isinstance(a.get("_checksum"), Sym) and isinstance(a.get("run_experiment"), PyFunc)
+                break
+    except Exception:
+        ok = False
+    _DIGEST["named"] = ok
+    return ok
+
+
 def discover_digest():
     """Which checksum does recompile() store?  Probe: construct an evaluator from a symbolic text with a successful
     compile and read the stored term (so a change of the checksum algorithm is not mistaken for a defect)."""
@@ -390,6 +415,9 @@ def _same_checksum(tally, conds, before, after, timeout_ms):
 
 
 def _dispatch(a):
+    if a[0].startswith("H"):
+        from vf.props import C11b
+        return C11b.analyse(a[0], a[1])
     return analyse(a[0], a[1])
 
 
@@ -397,7 +425,11 @@ def main(tier):
     common.setup_path()
     rep = common.Reporter(PROP)
     timeout_ms = 60000
-    results = common.pmap(_dispatch, [("recompile", timeout_ms), ("init", timeout_ms), ("call", timeout_ms)], procs=3)
+    named = representation_named()
+    items = [("H1", timeout_ms), ("H2", timeout_ms), ("H3", timeout_ms)]
+    if named:
+        items = [("recompile", timeout_ms), ("init", timeout_ms), ("call", timeout_ms)] + items
+    results = common.pmap(_dispatch, items, procs=6)
     total = Tally()
     encoded, stubs = {}, set()
     n_paths = reach = 0
@@ -442,8 +474,13 @@ def main(tier):
         "stubs_used": sorted(stubs) + ["parse_source / PythonCodeGen collapsed into an abstract compile outcome "
                                        "{Ok | None | raises | generated text rejected by compile()}",
                                        "pre-state: arbitrary evaluator satisfying _checksum = md5hex(t_old) and an opaque installed function"],
-        "bounds": "one step (recompile / __init__ / __call__) from an arbitrary invariant-satisfying state: histories of any "
-                  "length by induction (the induction argument is written in DESIGN.md, not machine-checked); texts unbounded",
+        "analyses": (["step analysis over the named representation (_checksum, run_experiment)"] if named else
+                     ["the evaluator does not keep its state in _checksum / run_experiment: named step analysis not applicable"]) +
+                    ["behavioural step analysis (attributes never inspected) from pre-histories H1 new(t); H2 new(t0);recompile(t); "
+                     "H3 new(t);recompile(bad)"],
+        "bounds": ("one step (recompile / __init__ / __call__) from an arbitrary invariant-satisfying state: histories of any "
+                   "length by induction (the induction argument is written in DESIGN.md, not machine-checked); " if named else
+                   "behavioural analysis only: one step after pre-histories of length <= 2; ") + "texts unbounded",
     }
     common.write_evidence(PROP, "model_checking", coverage,
                           ["MD5 collision-freeness on source texts", "compile()/exec() semantics as implemented in pysym"],
